@@ -83,8 +83,16 @@ static Outcome runCase(const KV& c)
             }
         }
         catch (const std::exception&) {
-            o.cls(c.getI("r" + std::to_string(k) + "_poison", 0) ? "rejected_round_then_reused" : "rejected_by_exception");
-            haveSetup = false;
+            if (c.getI("r" + std::to_string(k) + "_poison", 0)) {
+                // the three generated rejections are raised before setup() touches the hierarchy: the object still holds
+                // the hierarchy of the last successful setup(), and after the offending option is restored a solve()
+                // without another setup() is as legitimate as before the rejected call
+                o.cls("rejected_round_then_reused");
+            }
+            else {
+                o.cls("rejected_by_exception");
+                haveSetup = false;
+            }
             continue;
         }
         if (k > 0 && !doSetup)
